@@ -96,7 +96,17 @@ class CallHooks(object):
         self.available = available
 
     def invocation(self, gen, env, c, depth):
-        args = [N('ParameterNode', name=pn, expression=gen.expr(env, pt, max(depth - 1, 0))) for pn, pt in c.params]
+        args = []
+        for pn, pt in c.params:
+            if gen.params.get(pn) == pt and pt in ('int', 'str'):
+                # the callee has a parameter named like one of the caller's: it gets another value than the caller's own
+                # (which the caller reads again afterwards) - no draw, so the tape means what it meant before
+                e = N('BinaryOperationNode', left=N('ParamAccessNode', variable_name=pn, _kw='param'), operator='+',
+                      right=N('IntegerNode', value='1') if pt == 'int' else N('StringNode', value='"+"'))
+                gen.features.add('same-named-parameter-passed-on')
+            else:
+                e = gen.expr(env, pt, max(depth - 1, 0))
+            args.append(N('ParameterNode', name=pn, expression=e))
         pl = N('ParameterListNode', children=args)
         if c.kind == 'function':
             return N('FunctionInvocationNode', action_name=c.name, parameter_list=pl)
@@ -311,6 +321,8 @@ def gen_graph(ints, for_prebuild=False, logical_calls=False, states=None):
                 # sometimes named like the local variables of the generated bodies (i1, s1, b1): parameters and
                 # locals live in different namespaces
                 pn = {'int': 'i%d', 'str': 's%d', 'bool': 'b%d'}[pt] % (k + 1) if t.pick(3) == 0 else 'p%d' % k
+                if pn == 'p0':
+                    pt = 'int'          # callables of one component commonly share a parameter name and type (see CallHooks)
                 if pn not in [x[0] for x in params]:
                     params.append((pn, pt))
             c = Callable(kind, name, params, ret, cls)
@@ -762,7 +774,7 @@ def run_case(case, res=None):
     if res is not None:
         nt = (model.max_depth >= 2) or 'recursion' in features or 'bare-return' in features
         cl = sorted('f:' + f for f in features if f in ('recursion', 'bare-return', 'param-shadowed', 'derived-early-return', 'call-in-expression', 'call-statement',
-                                                        'return-in-loop', 'where', 'foreach', 'while'))
+                                                        'same-named-parameter-passed-on', 'return-in-loop', 'where', 'foreach', 'while'))
         cl.append('depth-%d' % min(model.max_depth, 4))
         if failed_first:
             cl.append('failed-invocation-first')
